@@ -54,7 +54,7 @@ def pick(tier, seed):
             ((1, 2), 2, "$I", "$"), ((2, 1), 0, "$", "I$"), ((4,), 2, "II", ""), ((3,), 1, "", "II")]
     # exception polarity (is_context = false) for every shape whose index is a multiple of 3: make sure the two-element
     # before/after parts are among them
-    n_extra = 10 if tier == "quick" else 120
+    n_extra = 6 if tier == "quick" else 120
     # stratify: every (before-pattern, after-pattern) class gets a chance before repeats
     rnd.shuffle(shapes)
     seen, extra = set(), []
@@ -340,7 +340,7 @@ fn c03_twin_reach() {
 
     total = len(all_shapes())
     return {
-        "harnesses": hs, "cap_s": 900 if tier == "quick" else 1800, "jobs": 8,
+        "harnesses": hs, "cap_s": 900 if tier == "quick" else 1800, "jobs": 10,
         "bounds": ["words of 3 and 4 segments in every syllabification, every target position, environments with up to 2 elements per side from {IPA segment, #, $} (# only at the periphery): %d shapes in all, %d decided this run (14 fixed regression shapes + seeded stratified draw; VERIF_SEED=%d)" % (total, sum(1 for h in hs if h["family"] == "environment-selection"), seed),
                    "environment states are passed as stack arrays (R5); unwind %d" % unwind,
                    "sets: two alternatives from {IPA segment, $}; position arithmetic: every word shape of 2-4 segments (6 of them in the quick tier), syllable index 0..=K, segment index 0..=4", "every third shape runs the exception polarity (is_context=false)"],
